@@ -161,6 +161,13 @@ func genClassProgram(rt *rapid.T) cprog {
 		}
 		fmt.Fprintf(&sb, "foreach ($o%d as $k => $v) { echo $k, '=', $v, ';'; }\necho \"\\n\";\n", c)
 		fmt.Fprintf(&sb, "echo json_encode($o%d), \"\\n\";\n", c)
+		// a clone enumerates like its original, plus what is added to it afterwards
+		cloned := rapid.IntRange(0, 1).Draw(rt, "clone") == 0
+		if cloned {
+			fmt.Fprintf(&sb, "$c%d = clone $o%d;\n$c%d->late = 7;\n", c, c, c)
+			fmt.Fprintf(&sb, "foreach ($c%d as $k => $v) { echo $k, '=', $v, ';'; }\necho \"\\n\";\n", c)
+			fmt.Fprintf(&sb, "echo json_encode($c%d), \"\\n\";\n", c)
+		}
 		if inheriting {
 			assertOrder = false
 		} else {
@@ -170,6 +177,9 @@ func genClassProgram(rt *rapid.T) cprog {
 				js = append(js, fmt.Sprintf("%q:%d", k, vals[k]))
 			}
 			exp.WriteString(strings.Join(kv, "") + "\n{" + strings.Join(js, ",") + "}\n")
+			if cloned {
+				exp.WriteString(strings.Join(kv, "") + "late=7;\n{" + strings.Join(append(js, "\"late\":7"), ",") + "}\n")
+			}
 		}
 		if len(order) > maxEntries {
 			maxEntries = len(order)
@@ -315,7 +325,7 @@ func TestC20(t *testing.T) {
 	cfg := sb.LoadConfig("C20")
 	rec := sb.NewRec(cfg)
 	defer rec.Flush()
-	rec.R.Rule = "generated class programs (1-3 classes with 1-6 declared properties in a drawn order, dynamic properties, a keyed array built by insertion, case-insensitive class lookup; enumeration through foreach / json_encode) and generated control-flow programs, each run k times on fresh VMs in one process and (a share) k times in fresh CLI processes; the statically deterministic corpus files run k times in fresh processes; ordered pairs (A, B) of residue-leaving programs run as [A, B] vs [B] in one process. Non-trivial = the program defines >= 2 classes or enumerates an object / array with >= 3 entries; pairs share a name; distinct by program text."
+	rec.R.Rule = "generated class programs (1-3 classes with 1-6 declared properties in a drawn order, dynamic properties, clones, a keyed array built by insertion, case-insensitive class lookup; enumeration through foreach / json_encode) and generated control-flow programs, each run k times on fresh VMs in one process and (a share) k times in fresh CLI processes; the statically deterministic corpus files run k times in fresh processes; ordered pairs (A, B) of residue-leaving programs run as [A, B] vs [B] in one process. Non-trivial = the program defines >= 2 classes or enumerates an object / array with >= 3 entries; pairs share a name; distinct by program text."
 	pool := &sb.Pool{}
 	defer pool.Close()
 	dl := time.Now().Add(budget(cfg, 90, 1200))
